@@ -8,8 +8,10 @@ for i in 01 02 03 04 05 06 07 08 09 10 11 12 13 14 15 16 17 18 19 20; do
   rm -f /tmp/.gverif_selftest_$i.txt
 done
 ./bin/gverif mutants 2>&1 | grep "FAIL\|MISS" && rc=1
-m=$(./bin/gverif seeded | grep -vc "CAUGHT"); [ "$m" = "0" ] || { echo "SELFTEST: $m seeded changes not reported"; rc=1; }
-e=$(./bin/gverif seeded | grep -c "ANALYSIS-ERROR"); [ "$e" = "0" ] || { echo "SELFTEST: $e seeded changes only fail closed"; rc=1; }
+./bin/gverif seeded > /tmp/.gverif_selftest_seeded.txt 2>&1
+m=$(grep -vc "CAUGHT" /tmp/.gverif_selftest_seeded.txt); [ "$m" = "0" ] || { echo "SELFTEST: $m seeded changes not reported"; rc=1; }
+e=$(grep -c "ANALYSIS-ERROR" /tmp/.gverif_selftest_seeded.txt); [ "$e" = "0" ] || { echo "SELFTEST: $e seeded changes only fail closed"; rc=1; }
+rm -f /tmp/.gverif_selftest_seeded.txt
 b=$(./bin/gverif benign | grep -vc "silent$"); [ "$b" = "0" ] || { echo "SELFTEST: $b benign refactorings raise an alarm"; rc=1; }
 [ $rc = 0 ] && echo "SELFTEST ok"
 exit $rc
